@@ -468,16 +468,26 @@ pub fn steady(base: &FdCfg, arrivals: u64) -> (Tally, Vec<Viol>) {
     let mut viols = vec![];
     // (a, b) with a <= b <= max_interval, including b = max_interval exactly
     for (a, b) in [(base.max_ms / 4, base.max_ms / 2), (base.max_ms / 2, base.max_ms), (base.max_ms, base.max_ms)] {
-        let (t, v) = steady_ab(&FdCfg { a_over: a.max(1), b_over: b.max(1), ..*base }, arrivals);
+        let (t, v) = steady_ab(&FdCfg { a_over: a.max(1), b_over: b.max(1), ..*base }, arrivals, false);
         tally.merge(&t);
         viols.extend(v);
+        // exactly ON the bound (phi_threshold == b / min(a, initial), which the statement includes):
+        // only where the arithmetic is exact in f64 — a == initial_interval, whole seconds — so that
+        // phi == threshold is reached exactly (all recorded intervals equal to a, evaluation b after
+        // the last heartbeat) and every other evaluation is below the threshold by at least 1/1005
+        if a == base.initial_ms && a % 1000 == 0 && b % 1000 == 0 && a > 0 {
+            let (t, v) = steady_ab(&FdCfg { a_over: a, b_over: b, ..*base }, arrivals, true);
+            tally.merge(&t);
+            viols.extend(v);
+            tally.inc("configurations_exactly_on_the_bound");
+        }
     }
     (tally, viols)
 }
 
-fn steady_ab(base: &FdCfg, arrivals: u64) -> (Tally, Vec<Viol>) {
+fn steady_ab(base: &FdCfg, arrivals: u64, exact: bool) -> (Tally, Vec<Viol>) {
     let (a, b) = (base.a_ms(), base.b_ms());
-    let thr = (b as f64 / a.min(base.initial_ms) as f64) * (1.0 + 1e-6);
+    let thr = (b as f64 / a.min(base.initial_ms) as f64) * if exact { 1.0 } else { 1.0 + 1e-6 };
     let cfg = FdCfg { phi: thr, ..*base };
     let mut tally = Tally::default();
     let mut viols = vec![];
@@ -692,7 +702,7 @@ pub fn run(property: &'static str, tier: Tier, started: Instant) -> Vec<Part> {
 
     if property == "C11" {
         let mut s = Part::new("fd/steady-arrivals");
-        s.rule = "fresh heartbeats at intervals drawn from {a, b} (every pattern of period <= 3, a = max_interval/4, b = max_interval/2), an evaluation after every interval, phi_threshold = b / min(a, initial_interval) x (1 + 1e-6), for every (window, initial, max) of the grid: from the third value on every evaluation must say live; and the returning-member variant: a first life long enough to wrap the sampling window, a silence beyond the bound (found dead), then steady heartbeats again: from the second value after the return on, every evaluation must say live; the same with a finite dead-node grace period G = 4 x bound and a return after more than G/2 of being dead (member scheduled for deletion)".into();
+        s.rule = "fresh heartbeats at intervals drawn from {a, b} (every pattern of period <= 3, a = max_interval/4, b = max_interval/2), an evaluation after every interval, phi_threshold = b / min(a, initial_interval) x (1 + 1e-6) — and exactly b / min(a, initial_interval) where a = initial_interval in whole seconds, so that the arithmetic is exact —, for every (window, initial, max) of the grid: from the third value on every evaluation must say live; and the returning-member variant: a first life long enough to wrap the sampling window, a silence beyond the bound (found dead), then steady heartbeats again: from the second value after the return on, every evaluation must say live; the same with a finite dead-node grace period G = 4 x bound and a return after more than G/2 of being dead (member scheduled for deletion)".into();
         let mut viols = vec![];
         let mut seen = std::collections::BTreeSet::new();
         for cfg in &cfgs {
